@@ -2,6 +2,7 @@ import CuqiVerif.Model.Proto
 import CuqiVerif.Model.C11
 import CuqiVerif.Model.C11_geom
 import CuqiVerif.Model.C11_gibbs
+import CuqiVerif.Model.C11_args
 open CuqiVerif CuqiVerif.Proto CuqiVerif.C11
 
 /-!
@@ -88,7 +89,7 @@ def resolve (results : Array Res) (s : String) : Option Nat :=
       | _ => none
   | _ => none
 
-inductive POp | op (o : Op) | gibbs (a : Nat) (sweeps : Nat) | sampler (a : Nat) (hybrid : Bool) (nb ns : Nat) | skip | cfg
+inductive POp | op (o : Op) | xop (o : XOp) | gibbs (a : Nat) (sweeps : Nat) | sampler (a : Nat) (hybrid : Bool) (nb ns : Nat) | skip | cfg
 
 def parseOp (results : Array Res) (s : String) : Option POp :=
   match s.splitOn ":" with
@@ -107,6 +108,19 @@ def parseOp (results : Array Res) (s : String) : Option POp :=
   -- configuration step of the harness (`enable_FD` / `disable_FD`): not an operation of the property; no modelled
   -- operation reads or writes the finite-difference option, so the heap is unchanged
   | ["F", _, _] => some .cfg
+  -- positional forms: `p:<obj>:<v.v | ->:<kw>` = obj(*args, **kw); `q:<model>:<ref,ref | ->:<key=ref&… | .>` = model(*pos, **kw)
+  | ["p", o, args, kw] => (match resolve results o, (if args = "-" then some [] else (args.splitOn ".").mapM (·.toInt?)), parseKw kw with
+                           | some a, some as, some k => some (.xop (.condArgs a as k)) | none, some _, some _ => some .skip | _, _, _ => none)
+  | ["q", m, pos, kw] =>
+    let posL := if pos = "-" then some [] else (pos.splitOn ",").mapM (resolve results)
+    let kwL := if kw = "." then some [] else (kw.splitOn "&").mapM (fun p => match p.splitOn "=" with
+      | [k, r] => do
+          let kk ← k.toNat?
+          let d ← resolve results r
+          some (kk, d)
+      | _ => none)
+    (match resolve results m, posL, kwL with
+     | some a, some ps, some ks => some (.xop (.applyArgs a ps ks)) | _, _, _ => some .skip)
   -- a real sampler run: `S:<obj>:<L|H>:<Nb>:<Ns>` (legacy Gibbs / HybridGibbs constructor + warmup + sampling)
   | ["S", o, kind, nb, ns] => (match resolve results o, nb.toNat?, ns.toNat? with
                                | some a, some b, some n => if kind = "L" then some (.sampler a false b n) else if kind = "H" then some (.sampler a true b n) else none
@@ -162,6 +176,12 @@ def stepOp (n0 : Nat) (fp0 : List String) (acc : PAcc) (txt : String) : PAcc :=
   | none => { acc with bad := true }
   | some .skip => { acc with results := acc.results.push .err, outs := acc.outs.push "skip" }
   | some .cfg => { acc with results := acc.results.push .unit, outs := acc.outs.push "cfg" }
+  | some (.xop o) =>
+    let (s1, r) := acc.s.runX o
+    let made := match r with
+      | .obj a => if a < acc.s.size then acc.made else (a, s1.size, (fp s1.size fuel s1 a).toString) :: acc.made
+      | _ => acc.made
+    { acc with s := s1, results := acc.results.push r, outs := acc.outs.push (describe n0 fp0 acc.s s1 r), made := made }
   | some (.op o) =>
     let (s1, r) := acc.s.run o
     let made := match r with
